@@ -86,7 +86,7 @@ Section WithKernels.
     : res (list nat * list Z * (list Q * list Q)) :=
     let d := get_ds s t in
     let a := get_arr s (d_arr d) in
-    let ax := axes_list (ndim a) axes in
+    do ax <- norm_axes (ndim a) (axes_list (ndim a) axes);
     do facs <- bin_factors fa (length ax);
     if existsb (fun f => (f <=? 0)%Z) facs then Err ValueErr
     else
@@ -103,6 +103,7 @@ Section WithKernels.
     finish s t (fst (fst r)) (snd (fst r)) (Some (snd r)) ip.
   Proof.
     unfold bin, bin_prep, finish, install_ip, install_cp. cbn zeta.
+    destruct (norm_axes _ _) as [ax|e]; [|reflexivity]. cbn [bind].
     destruct (bin_factors fa _) as [facs|e]; [|reflexivity]. cbn [bind].
     destruct (existsb _ facs); [reflexivity|].
     destruct (bin_data _ _ _) as [osh summed]. cbn [fst snd].
@@ -116,8 +117,9 @@ Section WithKernels.
   Proof.
     unfold bin_prep. cbn zeta. intros H HI Ht.
     pose proof (Inv_get _ _ HI Ht) as [_ (C1 & C2 & _)].
-    inv_bind H. destruct (existsb _ x); [discriminate|].
-    inv_bind H. destruct x0 as [no' ns']. injection H as <- _ <- <-.
+    apply bind_ok in H. destruct H as (ax & _ & H).
+    apply bind_ok in H. destruct H as (facs & _ & H). destruct (existsb _ facs); [discriminate|].
+    apply bind_ok in H. destruct H as ([no' ns'] & Hx0 & H). injection H as <- _ <- <-.
     apply bin_meta_len in Hx0. destruct Hx0 as [L1 L2].
     rewrite bin_data_len. split; [reflexivity|]. cbn [meta_ok].
     unfold ndim in *. split; congruence.
@@ -128,7 +130,7 @@ Section WithKernels.
     let d := get_ds s t in
     let a := get_arr s (d_arr d) in
     let sh := a_shape a in
-    let ax := axes_list (ndim a) axes in
+    do ax <- norm_axes (ndim a) (axes_list (ndim a) axes);
     do outs <- fr_out_shape sh ax spec;
     if existsb (fun n => (n <? 1)%Z) outs then Err ValueErr
     else if existsb (fun a0 => match shape_at sh a0 with Ok 0%Z => true | _ => false end) ax
@@ -152,9 +154,10 @@ Section WithKernels.
     finish s t (fst (fst r)) (snd (fst r)) (Some (snd r)) ip.
   Proof.
     unfold fourier, fourier_prep, finish, install_ip, install_cp. cbn zeta.
+    destruct (norm_axes _ _) as [ax|e]; [|reflexivity]. cbn [bind].
     destruct (fr_out_shape _ _ spec) as [outs|e]; [|reflexivity]. cbn [bind].
     destruct (existsb _ outs); [reflexivity|].
-    destruct (existsb _ (axes_list _ axes)); [reflexivity|].
+    destruct (existsb _ ax); [reflexivity|].
     cbn [bind fst snd]. destruct ip; reflexivity.
   Qed.
 
@@ -164,8 +167,9 @@ Section WithKernels.
   Proof.
     unfold fourier_prep. cbn zeta. intros H HI Ht.
     pose proof (Inv_get _ _ HI Ht) as [_ (C1 & C2 & _)].
-    inv_bind H. destruct (existsb _ x); [discriminate|].
-    destruct (existsb _ (axes_list _ axes)); [discriminate|].
+    apply bind_ok in H. destruct H as (ax & _ & H).
+    apply bind_ok in H. destruct H as (outs & _ & H). destruct (existsb _ outs); [discriminate|].
+    destruct (existsb _ ax); [discriminate|].
     injection H as <- _ <- <-.
     rewrite map_length, seq_length. split; [reflexivity|]. cbn [meta_ok].
     rewrite fr_origin_len, fr_sampling_len. unfold ndim in *. split; congruence.
@@ -438,6 +442,7 @@ Section WithKernels.
       unfold reduce_dp in H. cbn zeta in H.
       destruct (d_cls (get_ds s t)); try discriminate.
       destruct (a_shape (get_arr s (d_arr (get_ds s t)))) as [|n0 [|n1 [|n2 [|n3 [|n4 rest]]]]]; try discriminate.
+      match type of H with (if ?c then _ else _) = _ => destruct c; [discriminate|] end.
       inv_bind H.
       destruct (alloc_fresh_spec s [n2; n3] x) as (E1 & D1 & A1 & L1 & N1).
       destruct (alloc_fresh s [n2; n3] x) as [s1 aid]. cbn [fst snd] in *. subst aid.
